@@ -131,6 +131,14 @@ func genC10(dir, tier string, seed int64) {
 					if d == tensor.Uint32 || d == tensor.Uint64 || d == tensor.Uint8 || d == tensor.Uint16 {
 						vals[i] = int64(r.Intn(21))
 					}
+					if r.Intn(6) == 0 && (d == tensor.Int64 || d == tensor.Uint64) && op == "Abs" {
+						// magnitudes beyond 2^53 (not exactly representable as float64) and the extremes
+						big := []int64{9007199254740993, -9007199254740993, 1234567890123456789, -1234567890123456789, math.MaxInt64, -math.MaxInt64, math.MaxInt64 - 1, 4611686018427387905}
+						vals[i] = big[r.Intn(len(big))]
+						if d == tensor.Uint64 && vals[i] < 0 {
+							vals[i] = -vals[i]
+						}
+					}
 					if r.Intn(10) == 0 {
 						switch d {
 						case tensor.Int32:
